@@ -983,8 +983,36 @@ def run_op(cs, op):
 
     if name == "mt":
         import threading
-        src, n = int(f[1]), int(f[2])
+        import time
+        src, n, variant = int(f[1]), int(f[2]), f[3]
         me = cs.recv(src, lightmotif.ScoringMatrix)
+        if variant == "f":
+            # one thread keeps calculating on a long sequence (GIL released inside) while this thread asks the
+            # first p-value of the same matrix
+            long_seq = lightmotif.stripe("ACGTTGCAAC" * 100000)
+            stop = []
+            seen = []
+
+            def calc():
+                try:
+                    while not stop:
+                        me.calculate(long_seq)
+                except BaseException as e:
+                    seen.append(exc_outcome(e))
+            t = threading.Thread(target=calc)
+            t.start()
+            time.sleep(0.05)
+            try:
+                for _ in range(3):
+                    me.pvalue(1.0)
+                    time.sleep(0.01)
+            except BaseException as e:
+                seen.append(exc_outcome(e))
+            stop.append(1)
+            t.join()
+            if "P" in seen:
+                return "P"
+            return "V:mt:ok" if not [x for x in seen if x != "E:ValueError"] else "V:mt:" + seen[0]
         texts = [("ACGTTGCA" * (5 + 3 * i) + "TTGACA" * i)[: 40 + 37 * i] for i in range(n)]
 
         def work(text, out):
@@ -1000,16 +1028,16 @@ def run_op(cs, op):
                 out.append(exc_outcome(e))
         seq_out = []
         for t in texts:
-            work(t, seq_out)
+            work(t, seq_out)        # sequential first: also fills the distribution cache
         par_out = [[] for _ in texts]
         threads = [threading.Thread(target=work, args=(t, o)) for t, o in zip(texts, par_out)]
         for t in threads:
             t.start()
         for t in threads:
             t.join()
-        ok = all(len(o) == 1 and o[0] == s for o, s in zip(par_out, seq_out)) and all(not isinstance(s, str) for s in seq_out)
         if any(s == "P" for s in seq_out) or any(o and o[0] == "P" for o in par_out):
             return "P"
+        ok = all(len(o) == 1 and o[0] == s for o, s in zip(par_out, seq_out))
         return "V:mt:ok" if ok else "V:mt:mismatch"
 
     if name == "dl":
